@@ -118,33 +118,32 @@ func c10R1R2(c *Ctx, p *Prog) {
 		c.Undec(r1, "Threefold#scan", fn.Pos(), "no comparison of hashes[ix] (ix a loop variable) with the last history entry hashes[len-1] found: the scan is not of the recognised shape")
 		return
 	}
-	// ix: init = len - s ; step = ix - d
-	var s, d int64
-	okShape := len(ixPhi.Edges) == 2
+	// the scan index: start value and signed step
+	var step int64
+	var initV ssa.Value
 	var stepInstr *ssa.BinOp
-	if okShape {
-		okShape = false
+	if len(ixPhi.Edges) == 2 {
 		for i, e := range ixPhi.Edges {
-			if k, ok := lenMinus(e); ok {
-				s = k
-				if bo, ok := stripConv(ixPhi.Edges[1-i]).(*ssa.BinOp); ok && stripConv(bo.X) == ssa.Value(ixPhi) {
-					if dd, isc := constOf(bo.Y); isc {
-						if bo.Op == token.SUB {
-							d, okShape, stepInstr = dd, true, bo
-						} else if bo.Op == token.ADD {
-							d, okShape, stepInstr = -dd, true, bo
-						}
+			if bo, ok := stripConv(e).(*ssa.BinOp); ok && stripConv(bo.X) == ssa.Value(ixPhi) {
+				if dd, isc := constOf(bo.Y); isc {
+					switch bo.Op {
+					case token.SUB:
+						step, stepInstr, initV = -dd, bo, ixPhi.Edges[1-i]
+					case token.ADD:
+						step, stepInstr, initV = dd, bo, ixPhi.Edges[1-i]
 					}
 				}
 			}
 		}
 	}
-	if !okShape {
-		c.Undec(r1, "Threefold#scan", cmp.Pos(), "the scan index is not of the form ix := len(hashes)-s; ix -= d")
+	if stepInstr == nil || step == 0 {
+		c.Undec(r1, "Threefold#scan", cmp.Pos(), "the scan index does not advance by a constant step")
 		return
 	}
-	// lower bound: loop continues while ix >= 0 (or ix > -1)
-	lowest, lowKnown := int64(0), false
+	// the loop test: ix compared with a constant or with len(hashes)-k, normalised to "the body runs while ix OP bound"
+	var testOp token.Token
+	var boundConst, boundLen int64 // bound = boundConst, or len - boundLen
+	boundKind := ""
 	if iff, ok := ixPhi.Block().Instrs[len(ixPhi.Block().Instrs)-1].(*ssa.If); ok {
 		if bo, ok := iff.Cond.(*ssa.BinOp); ok {
 			x, y, op := stripConv(bo.X), stripConv(bo.Y), bo.Op
@@ -155,41 +154,105 @@ func c10R1R2(c *Ctx, p *Prog) {
 			if !bodyTrue {
 				op = negCmp(op)
 			}
-			if k, isc := constOf(y); isc && x == ssa.Value(ixPhi) {
-				switch op {
-				case token.GEQ:
-					lowest, lowKnown = k, true
-				case token.GTR:
-					lowest, lowKnown = k+1, true
+			if x == ssa.Value(ixPhi) {
+				if k, isc := constOf(y); isc {
+					testOp, boundConst, boundKind = op, k, "const"
+				} else if k, ok := lenMinus(y); ok {
+					testOp, boundLen, boundKind = op, k, "len"
 				}
 			}
 		}
 	}
-	switch {
-	case !lowKnown:
-		c.Undec(r1, "Threefold#lower-bound", cmp.Pos(), "the loop test is not a comparison of the scan index with a constant lower bound")
-	case lowest == 0:
-		c.Ok(r1, "Threefold#lower-bound", cmp.Pos(), "the scan runs down to index 0: the whole history since the last reset is visited")
-	case lowest > 0:
-		c.Fail(r1, "Threefold#lower-bound", cmp.Pos(), "the scan stops at index %d: the oldest %d entries of the history are never compared (an occurrence there is missed)", lowest, lowest)
-	default:
-		c.Undec(r1, "Threefold#lower-bound", cmp.Pos(), "the loop admits a negative index (%d)", lowest)
+	if step < 0 {
+		// ---- descending: ix := len - s; ix -= d; while ix >= 0
+		d := -step
+		s, okInit := lenMinus(initV)
+		if !okInit {
+			c.Undec(r1, "Threefold#scan", cmp.Pos(), "a descending scan must start at len(hashes)-s")
+			return
+		}
+		lowest, lowKnown := int64(0), false
+		if boundKind == "const" {
+			switch testOp {
+			case token.GEQ:
+				lowest, lowKnown = boundConst, true
+			case token.GTR:
+				lowest, lowKnown = boundConst+1, true
+			}
+		}
+		switch {
+		case !lowKnown:
+			c.Undec(r1, "Threefold#lower-bound", cmp.Pos(), "the loop test is not a comparison of the scan index with a constant lower bound")
+		case lowest == 0:
+			c.Ok(r1, "Threefold#lower-bound", cmp.Pos(), "the scan runs down to index 0: the whole history since the last reset is visited")
+		case lowest > 0:
+			c.Fail(r1, "Threefold#lower-bound", cmp.Pos(), "the scan stops at index %d: the oldest %d entries of the history are never compared (an occurrence there is missed)", lowest, lowest)
+		default:
+			c.Undec(r1, "Threefold#lower-bound", cmp.Pos(), "the loop admits a negative index (%d)", lowest)
+		}
+		okCover := (d == 2 && (s == 3 || s == 5)) || (d == 1 && s >= 2 && s <= 5)
+		why := fmt.Sprintf("start offset %d from the end, stride %d", s, d)
+		switch {
+		case s <= 1:
+			why += ": the current entry (offset 1) is compared with itself and counted"
+		case d == 2 && s%2 == 0:
+			why += ": only offsets of the wrong parity are visited (the side to move differs there: never a match)"
+		case d > 2:
+			why += fmt.Sprintf(": candidate offsets 5,7,9,... are skipped (every %dth entry only)", d)
+		case s > 5:
+			why += ": a recurrence 4 plies back (offset 5) is never seen"
+		}
+		c.Check(okCover, r1, "Threefold#coverage", stepInstr.Pos(), "visited offsets {s, s+d, ...} contain every offset at which the position can recur (5,7,9,...) and not the current entry — %s", why)
+	} else {
+		// ---- ascending: ix := parity of the last index (or 0); ix += d; while ix <= len-k
+		d := step
+		// start: (len-1)&1 / (len-1)%2 — the lowest index with the parity of the current entry — or a constant
+		startParity, startConst, startKnown := false, int64(0), false
+		if k, isc := constOf(initV); isc {
+			startConst, startKnown = k, true
+		} else if bo, ok := stripConv(initV).(*ssa.BinOp); ok {
+			k, isc := constOf(bo.Y)
+			if isc && ((bo.Op == token.AND && k == 1) || (bo.Op == token.REM && k == 2)) {
+				if m, ok := lenMinus(bo.X); ok && m%2 == 1 {
+					startParity, startKnown = true, true
+				}
+			}
+		}
+		var top int64 // highest index admitted: len - top
+		topKnown := false
+		if boundKind == "len" {
+			switch testOp {
+			case token.LEQ:
+				top, topKnown = boundLen, true
+			case token.LSS:
+				top, topKnown = boundLen+1, true
+			}
+		}
+		switch {
+		case !startKnown:
+			c.Undec(r1, "Threefold#lower-bound", cmp.Pos(), "the start of the ascending scan is neither a constant nor the parity of the last index")
+		case startParity && d == 2, !startParity && startConst == 0 && d == 1:
+			c.Ok(r1, "Threefold#lower-bound", cmp.Pos(), "the ascending scan starts at the oldest entry that can match: the whole history since the last reset is visited")
+		case !startParity && startConst > 1:
+			c.Fail(r1, "Threefold#lower-bound", cmp.Pos(), "the scan starts at index %d: the oldest entries of the history are never compared", startConst)
+		case !startParity && d == 2:
+			c.Fail(r1, "Threefold#lower-bound", cmp.Pos(), "the scan starts at the constant index %d with stride 2: for histories of the other parity only entries with the opponent to move are visited (never a match)", startConst)
+		default:
+			c.Undec(r1, "Threefold#lower-bound", cmp.Pos(), "start/stride combination of the ascending scan not recognised")
+		}
+		switch {
+		case !topKnown:
+			c.Undec(r1, "Threefold#coverage", stepInstr.Pos(), "the loop test of the ascending scan is not a comparison of the index with len(hashes)-k")
+		case d > 2:
+			c.Fail(r1, "Threefold#coverage", stepInstr.Pos(), "stride %d: candidate entries are skipped", d)
+		case top <= 1:
+			c.Fail(r1, "Threefold#coverage", stepInstr.Pos(), "the scan reaches the current entry (index len-%d): it is compared with itself and counted", top)
+		case top > 5 || (d == 2 && top > 5):
+			c.Fail(r1, "Threefold#coverage", stepInstr.Pos(), "the scan stops at index len-%d: a recurrence 4 plies back (index len-5) is never seen", top)
+		default:
+			c.Ok(r1, "Threefold#coverage", stepInstr.Pos(), "the ascending scan visits every candidate entry up to index len-%d (4 plies back is len-5) and never the current entry", top)
+		}
 	}
-	okCover := (d == 2 && (s == 3 || s == 5)) || (d == 1 && s >= 2 && s <= 5)
-	why := fmt.Sprintf("start offset %d from the end, stride %d", s, d)
-	switch {
-	case d <= 0:
-		why += ": the scan does not move towards the start of the history"
-	case s <= 1:
-		why += ": the current entry (offset 1) is compared with itself and counted"
-	case d == 2 && s%2 == 0:
-		why += ": only offsets of the wrong parity are visited (the side to move differs there: never a match)"
-	case d > 2:
-		why += fmt.Sprintf(": candidate offsets 5,7,9,... are skipped (every %dth entry only)", d)
-	case s > 5:
-		why += ": a recurrence 4 plies back (offset 5) is never seen"
-	}
-	c.Check(okCover, r1, "Threefold#coverage", stepInstr.Pos(), "visited offsets {s, s+d, ...} contain every offset at which the position can recur (5,7,9,...) and not the current entry — %s", why)
 
 	// R2 counting
 	// the increment in the block where the comparison is true
